@@ -39,7 +39,7 @@ type HandlerSpec struct {
 //
 // Ops: add:h | run | wrun | rh | rhbg | wrh | wst:h | stop:h | wsd:h | cancel | close:n | wclose | wrr | run2 |
 // emit:h:n | wacc | whs:n | whe:n | park:<hook>[:arg] | wpark | rel | wev:<kind>[:n] | gate | pub:h:n | nap:ms |
-// crun (is Running() closed?) | plugclose (a plugin that calls Close while Run starts up) | subgo (let gated Subscribe calls return) | cst:h (is Started() closed?)
+// crun (is Running() closed?) | poll:n (n goroutines spinning on IsClosed()) | dup:h (AddHandler with h's name again) | plugclose (a plugin that calls Close while Run starts up) | subgo (let gated Subscribe calls return) | cst:h (is Started() closed?)
 type Scenario struct {
 	Handlers         []HandlerSpec `json:"h"`
 	Prog             []string      `json:"p"`
@@ -255,6 +255,8 @@ func Run(sc Scenario) *Result {
 	var emitWg sync.WaitGroup
 	var nClose, nRun, nRh int64
 	var park *Park
+	pollStop := make(chan struct{})
+	var pollWg sync.WaitGroup
 	gateOpen := false
 	openGate := func() {
 		if !gateOpen {
@@ -390,6 +392,37 @@ func Run(sc Scenario) *Result {
 				rec.Log("rng")
 			} else {
 				ok = false
+			}
+		case "poll": // n goroutines poll the public IsClosed() in a tight loop until the scenario ends
+			n := arg(1)
+			rec.Log("pol", itoa(n))
+			for i := 0; i < n; i++ {
+				pollWg.Add(1)
+				go func() {
+					defer pollWg.Done()
+					for {
+						select {
+						case <-pollStop:
+							return
+						default:
+							router.IsClosed()
+						}
+					}
+				}()
+			}
+		case "dup": // AddHandler with a name that is taken: the documented DuplicateHandlerNameError panic, recovered by the application
+			h := arg(1)
+			res := "ahn"
+			ok = callBounded("AddHandler (duplicate name)", func() {
+				defer func() {
+					if rv := recover(); rv != nil {
+						res = "ahd"
+					}
+				}()
+				router.AddHandler("h"+itoa(h), "t"+itoa(h), &ScriptSub{rec: rec, h: h, sc: rn}, "o"+itoa(h), &ScriptPub{rec: rec, h: h}, handlerFunc(h))
+			})
+			if ok {
+				rec.Log(res, itoa(h))
 			}
 		case "crun": // is Running() closed? (checked without waiting)
 			select {
@@ -587,6 +620,8 @@ func Run(sc Scenario) *Result {
 		}
 	}
 	// ---- wind down: nothing may stay parked or gated; every call must return; the router must get closed
+	close(pollStop) // the harness's own pollers are gone before the census looks at the router's goroutines
+	waitWG(&pollWg, "IsClosed() pollers did not return")
 	rec.ReleaseAll()
 	openGate()
 	select {
